@@ -10,6 +10,7 @@ PROP = {
     },
     "fuzz": {"target": "c18_calls", "runs": {"thorough": 3000000}},
     "crash_is_violation": True,
+    "volume": {"quick": 2},
     "technique": "property-based testing over a generated API table (catch_unwind totality on lattice arguments), exhaustive length/index sweeps with canaries, the same under AddressSanitizer, plus a libFuzzer target in the thorough tier",
     "level_text": "Generated-input search over every public callable of the float types with degenerate arguments in every position (no panic allowed), complete enumeration of slice lengths and indices (documented panics exactly, canaries untouched), and the same sweeps in an ASan-instrumented nightly build with exact-size heap buffers. Exploration, not proof.",
     "level_note": "Trusted: rustc, proptest, AddressSanitizer, the API-table generator (functions it cannot call are listed in the evidence under api_skipped). NEON/wasm32 not reachable.",
